@@ -1,8 +1,8 @@
 """C23 - paired-action wrappers always undo what they did.
 
 G engine with a scripted responder: each wrapper around every inner program of a small vocabulary-instantiated
-grammar, every placement of up to J failures / stop / abort requests at inner messages; pairing invariants on the
-emitted message trace.
+grammar, every placement of up to J failures / stop / abort requests at ANY message of the wrapped generator (the inner
+plan's and the wrapper's own); pairing invariants on the emitted message trace, judged on what was acknowledged.
 """
 
 import itertools
@@ -27,15 +27,20 @@ RULE = (
     "instantiated per wrapper (generic 'null' messages; read/null on the devices of the list for lazily_stage; open_run/close_run with and "
     "without run keys + null for monitor/fly, and run_wrapper(program) as inner plan); device lists = every tuple of 1-3 devices (repetition "
     "allowed for stage_wrapper, every subset for the others) from the forest P1{c1a,c1b}, P2{c2a}, S (quick: the [obj]+children and Status response styles on lists of 1-2 devices only); scripts = every placement of <= J "
-    "injections (quick: N<=3,J=1; thorough: N<=3,J=2 plus N=4,J=1 on the configurations whose inner vocabulary matters) from {throw E1, RequestStop, RequestAbort} at messages of the wrapped plan, everything else answered by "
-    "the responder, run to termination; oracle per wrapper on the emitted trace: one close_run per open_run with exit_status matching the "
-    "outcome; unstage sequence (restricted to devices of emitted stage messages) = reverse of the stage sequence, each once, after the plan's "
-    "last message; every token unsubscribed once; every suspender removed once; unmonitor / complete-then-collect of every device between the "
-    "previous run boundary and each close_run; non-trivial = at least one injection or the inner program contains a Try"
+    "injections (quick: N<=3,J=1; thorough: N<=3,J=2 plus N=4,J=1 on the configurations whose inner vocabulary matters) from {throw E1, RequestStop, RequestAbort} at EVERY message the wrapped generator yields - "
+    "the inner plan's and the wrapper's own (stage, open_run, subscribe, install_suspender, monitor, kickoff, their waits, and the undo messages) - "
+    "(thorough, stage_wrapper on 3-device lists: every message for inner programs <= 2 nodes, inner messages only for exactly 3 nodes), everything else answered by "
+    "the responder, run to termination; oracle per wrapper on the emitted trace, judged on what was ACKNOWLEDGED (a run is open / a device staged, monitored, kicked off / a token "
+    "subscribed / a suspender installed once its message got a normal response; a 'do' message answered by an exception is a don't-care): as many close_run as acknowledged open_run, exit_status matching the "
+    "outcome of the wrapped plan; unstage sequence (restricted to devices of acknowledged stage messages) = reverse of the stage sequence, each once, after the plan's "
+    "last message; every handed-out token unsubscribed once; every installed suspender removed once; unmonitor / complete-then-collect of every device between the "
+    "previous run boundary and each close_run (when one of the wrapper's own messages failed: of every device whose monitor / kickoff was acknowledged in that segment); once an undo message "
+    "itself is answered by an exception the remainder of the undo sequence is a don't-care (but nothing is undone twice and the order stays a prefix of the reverse order); "
+    "non-trivial = at least one injection or the inner program contains a Try"
 )
 ASSUMPTIONS = [
-    "failures are injected only at messages of the wrapped plan ('for every behaviour of the wrapped plan'), never at the wrapper's own messages",
     "extra unstage messages for devices that were reported by the stage response but never named in a stage message are a don't-care",
+    "whether a device / token / suspender / run whose 'do' message was answered by an exception gets undone is a don't-care; so is everything left of the undo sequence after an undo message was answered by an exception",
     "no close()/PlanHalt (the statement speaks of succeeding, failing and stopped plans)",
 ]
 
@@ -176,7 +181,14 @@ def _configs(tier):
                 for devs in _tuples(3):
                     if red and mode != "self" and len(devs) > 2:
                         continue  # quick: the two other stage-response styles on device lists of 1-2 only
-                    out.append(("stage_wrapper", {"devices": list(devs), "stage": mode}, fam("generic", 2 if red else 3)))
+                    c = {"devices": list(devs), "stage": mode}
+                    if red or len(devs) <= 2:
+                        out.append(("stage_wrapper", c, fam("generic", 2 if red else 3)))
+                    else:
+                        # 3-device lists: injections at every message for inner programs <= 2 nodes, at the inner
+                        # messages only (the wrapper's own phases are the same for every inner program) for exactly 3 nodes
+                        out.append(("stage_wrapper", c, fam("generic", 2)))
+                        out.append(("stage_wrapper", c, ("generic", 3, True, inj, "inner")))
             for devs in _subsets(3):
                 if ex and len(devs) > 2:
                     continue
@@ -230,7 +242,7 @@ def items(tier, seed):
     import bluesky.preprocessors  # noqa: F401
 
     cfgs = _configs(tier)
-    size = 12 if tier == "quick" else 4
+    size = 5 if tier == "quick" else 4
     return [{"tier": tier, "lo": lo, "hi": min(len(cfgs), lo + size)} for lo in range(0, len(cfgs), size)]
 
 
@@ -242,10 +254,21 @@ def _factory(wrapper, cfg, family, prog):
 
     f = G.compile_program(prog)
 
-    def inner(env):
+    def plan(env):
         if family[0] == "run_wrapper":
             return bpp.run_wrapper(f(env))
         return f(env)
+
+    def inner(env):
+        # transparent pass-through that records how the WRAPPED plan ended (the wrapper may end differently when one of
+        # its own messages is answered by an exception)
+        try:
+            ret = yield from plan(env)
+        except BaseException as e:
+            env.aux["inner_end"] = type(e).__name__
+            raise
+        env.aux["inner_end"] = "return"
+        return ret
 
     devs = [FOREST[d] for d in cfg.get("devices", ())]
     if wrapper == "run_wrapper":
@@ -267,83 +290,119 @@ def _factory(wrapper, cfg, family, prog):
     raise ValueError(wrapper)
 
 
-def _decode(obs):
-    """canon steps -> list of dicts for the yielded messages"""
+def _decode(obs, script=None):
+    """canon steps -> list of dicts for the yielded messages; with the script: 'ack' = the message got a normal response
+    (step i is the outcome of action i, so the message yielded at step i is answered by action i+1)"""
     out = []
-    for st in obs.steps:
+    for i, st in enumerate(obs.steps):
         if st[0] != "yield":
             continue
         _, label, cmd, objc, argsc, kwc, run = st[1]
-        out.append({"label": label, "cmd": cmd, "obj": objc[1] if isinstance(objc, tuple) else None, "args": argsc[1:], "kwargs": dict(kwc[1:]), "run": run})
+        ack = None
+        if script is not None and i + 1 < len(script):
+            ack = script[i + 1][0] == "send"
+        out.append({"label": label, "cmd": cmd, "obj": objc[1] if isinstance(objc, tuple) else None, "args": argsc[1:], "kwargs": dict(kwc[1:]), "run": run, "ack": ack})
     return out
 
 
-def _invariants(wrapper, cfg, obs):
-    """-> list of (rule, shape) ; obs is terminal."""
-    msgs = _decode(obs)
+UNDO = {
+    "run_wrapper": {"close_run"},
+    "stage_wrapper": {"unstage"},
+    "lazily_stage_wrapper": {"unstage"},
+    "subs_wrapper": {"unsubscribe"},
+    "suspend_wrapper": {"remove_suspender"},
+    "monitor_during_wrapper": {"unmonitor"},
+    "fly_during_wrapper": {"complete", "collect"},
+}
+
+
+def _invariants(wrapper, cfg, obs, script):
+    """-> list of (rule, shape) ; obs is terminal.
+
+    Pairing is judged on what was ACKNOWLEDGED: a device is staged / a token subscribed / a suspender installed / a run
+    opened / a device monitored or kicked off once the message got a normal response.  A 'do' message answered by an
+    exception is a don't-care (may or may not be undone).  Once an 'undo' message of the wrapper was itself answered by an
+    exception the rest of the undo sequence is a don't-care (nothing may be undone twice, though).
+    """
+    msgs = _decode(obs, script)
     own = OWN[wrapper]
     term = obs.steps[-1]
     out = []
     inner_idx = [i for i, m in enumerate(msgs) if m["cmd"] not in own]
     last_inner = inner_idx[-1] if inner_idx else -1
+    own_exc = any(m["cmd"] in own and not m["ack"] for m in msgs)  # one of the wrapper's own messages was answered by an exception
+    undo_exc = any(m["cmd"] in UNDO[wrapper] and not m["ack"] for m in msgs)
 
     if wrapper == "run_wrapper":
-        opens = [m for m in msgs if m["cmd"] == "open_run"]
+        opens = [m for m in msgs if m["cmd"] == "open_run" and m["ack"]]
+        opens_x = [m for m in msgs if m["cmd"] == "open_run" and not m["ack"]]
         closes = [(i, m) for i, m in enumerate(msgs) if m["cmd"] == "close_run"]
-        if len(closes) != len(opens):
+        if not (len(opens) <= len(closes) <= len(opens) + len(opens_x)):
             out.append(("close_run-count", f"opens={len(opens)}|closes={len(closes)}"))
         else:
-            if term[0] == "return":
+            # the status must match the outcome of the WRAPPED plan (= the wrapper's outcome unless one of the wrapper's own
+            # messages was answered by an exception)
+            end = obs.aux.get("inner_end")
+            if end == "return":
                 want = (None, "success")
-            elif term[1] == "RequestStop":
+            elif end == "RequestStop":
                 want = ("success",)
-            elif term[1] == "RequestAbort":
+            elif end == "RequestAbort":
                 want = ("abort",)
             else:
                 want = ("fail",)
             for i, m in closes:
-                if m["kwargs"].get("exit_status") not in want:
-                    out.append(("close_run-status", f"outcome={term[0]}:{term[1] if term[0] == 'raise' else ''}|exit_status={m['kwargs'].get('exit_status')}"))
+                if end is not None and m["kwargs"].get("exit_status") not in want:
+                    out.append(("close_run-status", f"outcome={'return' if end == 'return' else 'raise'}:{'' if end == 'return' else end}|exit_status={m['kwargs'].get('exit_status')}"))
                 if i < last_inner:
                     out.append(("close_run-before-plan-end", ""))
     elif wrapper in ("stage_wrapper", "lazily_stage_wrapper"):
-        S = [m["obj"] for m in msgs if m["cmd"] == "stage"]
+        S = [m["obj"] for m in msgs if m["cmd"] == "stage" and m["ack"]]
         Uall = [(i, m["obj"]) for i, m in enumerate(msgs) if m["cmd"] == "unstage"]
         U = [o for _, o in Uall if o in set(S)]
         dup = sorted({o for o in U if U.count(o) > 1})
         if dup:
             roots_of_used_children = all(any(FOREST[c].parent is FOREST[o] for c in cfg.get("used", ())) for o in dup)
             out.append(("unstaged-more-than-once", f"stage={cfg['stage']}|" + ("root-restaged-for-child" if roots_of_used_children else "other")))
-        elif set(S) - set(U):
+        elif set(S) - set(U) and not undo_exc:
             # did the inserted head plan die right after a stage response (the message that triggered the stage never came out)?
             died = False
             for i, m in enumerate(msgs):
-                if m["cmd"] == "stage":
+                if m["cmd"] == "stage" and m["ack"]:
                     nxt = msgs[i + 1] if i + 1 < len(msgs) else None
-                    if nxt is None or nxt["obj"] is None or (FOREST[nxt["obj"]].parent or FOREST[nxt["obj"]]).name != m["obj"]:
+                    if nxt is None or nxt["cmd"] in ("stage", "unstage") or nxt["obj"] is None or (FOREST[nxt["obj"]].parent or FOREST[nxt["obj"]]).name != m["obj"]:
                         died = True
             if cfg["stage"] == "status" and wrapper == "lazily_stage_wrapper" and died:
                 shape = "stage=status|head-plan-died-on-Status-response"
             else:
                 shape = f"stage={cfg['stage']}|outcome={term[0]}:{term[1] if term[0] == 'raise' else ''}"
+                if own_exc:
+                    shape += "|" + _own_exc_shape(msgs, own)
             out.append(("staged-not-unstaged", shape))
-        elif U != list(reversed(S)):
+        elif (U != list(reversed(S))) if not undo_exc else (U != list(reversed(S))[: len(U)]):
             out.append(("unstage-not-reverse-order", f"stage={cfg['stage']}|n={len(S)}"))
         if any(i < last_inner for i, _ in Uall):
             out.append(("unstage-before-plan-end", f"stage={cfg['stage']}"))
     elif wrapper == "subs_wrapper":
-        ntok = sum(1 for m in msgs if m["cmd"] == "subscribe")
+        ntok = sum(1 for m in msgs if m["cmd"] == "subscribe" and m["ack"])  # the responder hands out a token per answered subscribe
         toks = list(range(100, 100 + ntok))
         un = [(i, m["kwargs"].get("token")) for i, m in enumerate(msgs) if m["cmd"] == "unsubscribe"]
-        if sorted(t for _, t in un) != toks:
-            out.append(("unsubscribe-mismatch", f"subscribed={ntok}|unsubscribed={len(un)}"))
+        got = sorted(t for _, t in un)
+        if (got != toks) if not undo_exc else (len(set(got)) != len(got) or not set(got) <= set(toks)):
+            out.append(("unsubscribe-mismatch", f"subscribed={ntok}|unsubscribed={len(un)}" + ("|" + _own_exc_shape(msgs, own) if own_exc else "")))
         if any(i < last_inner for i, _ in un):
             out.append(("unsubscribe-before-plan-end", ""))
     elif wrapper == "suspend_wrapper":
-        ins = sorted(m["args"][0][1] for m in msgs if m["cmd"] == "install_suspender")
+        ins = sorted(m["args"][0][1] for m in msgs if m["cmd"] == "install_suspender" and m["ack"])
         rem = [(i, m["args"][0][1]) for i, m in enumerate(msgs) if m["cmd"] == "remove_suspender"]
-        if sorted(r for _, r in rem) != ins:
-            out.append(("suspender-not-removed", f"installed={len(ins)}|removed={len(rem)}"))
+        got = sorted(r for _, r in rem)
+        if not own_exc:
+            bad = got != ins
+        else:
+            # removal of a suspender whose installation was interrupted / never attempted: don't-care
+            bad = any(got.count(x) > 1 for x in ins) or (not undo_exc and any(got.count(x) != 1 for x in ins))
+        if bad:
+            out.append(("suspender-not-removed", f"installed={len(ins)}|removed={len(rem)}" + ("|" + _own_exc_shape(msgs, own) if own_exc else "")))
         if any(i < last_inner for i, _ in rem):
             out.append(("remove-before-plan-end", ""))
     else:
@@ -351,7 +410,20 @@ def _invariants(wrapper, cfg, obs):
         prev = -1
         for i, m in enumerate(msgs):
             if m["cmd"] in ("open_run", "close_run"):
-                if m["cmd"] == "close_run":
+                if m["cmd"] == "close_run" and own_exc:
+                    # acknowledged-based reading: what was started in this run segment is finished before the close_run
+                    seg = msgs[prev + 1 : i]
+                    do, undo = ("monitor", ("unmonitor",)) if wrapper == "monitor_during_wrapper" else ("kickoff", ("complete", "collect"))
+                    for k, x in enumerate(seg):
+                        if x["cmd"] == do and x["ack"]:
+                            pos = k
+                            for u in undo:
+                                pos = next((j for j in range(pos + 1, len(seg)) if seg[j]["cmd"] == u and seg[j]["obj"] == x["obj"]), None)
+                                if pos is None:
+                                    break
+                            if pos is None:
+                                out.append((f"{'-'.join(undo)}-missing-before-close_run", f"devices={len(devs)}|acknowledged-{do}|" + _own_exc_shape(msgs, own)))
+                elif m["cmd"] == "close_run":
                     seg = msgs[prev + 1 : i]
                     if wrapper == "monitor_during_wrapper":
                         got = [x["obj"] for x in seg if x["cmd"] == "unmonitor"]
@@ -372,6 +444,11 @@ def _invariants(wrapper, cfg, obs):
     return out
 
 
+def _own_exc_shape(msgs, own):
+    """which of the wrapper's own messages were answered by an exception (commands only; stable under renumbering)"""
+    return "own-msg-failed=" + "+".join(sorted({m["cmd"] for m in msgs if m["cmd"] in own and not m["ack"]}))
+
+
 def _run_case(t, wrapper, cfg, family, prog, max_inj):
     factory = _factory(wrapper, cfg, family, prog)
     respond = _responder(cfg.get("stage", "self"))
@@ -379,14 +456,15 @@ def _run_case(t, wrapper, cfg, family, prog, max_inj):
     if wrapper == "lazily_stage_wrapper":
         cfg = dict(cfg, used=sorted({x[2] for x in G.walk(prog) if x[0] == "Y" and len(x) > 2}))
     nt_prog = G.has(prog, "Try")
+    inner_only = len(family) > 4 and family[4] == "inner"
 
     def menu(script, obs):
         if obs is None:
             return (G.SEND_NONE,)
         acts = [G.SEND_NONE]
         ninj = sum(1 for a in script if a[0] == "throw")
-        if ninj < max_inj and obs.last[0] == "yield" and obs.last[1][2] not in own:
-            acts.extend(INJECT)
+        if ninj < max_inj and obs.last[0] == "yield" and not (inner_only and obs.last[1][2] in own):
+            acts.extend(INJECT)  # at EVERY message the wrapped generator yields, the wrapper's own included
         return acts
 
     for script, obs in G.explore(factory, HORIZON, respond=respond, env_factory=_env, menu=menu):
@@ -396,7 +474,7 @@ def _run_case(t, wrapper, cfg, family, prog, max_inj):
             continue
         ninj = sum(1 for a in script if a[0] == "throw")
         t.case((wrapper, cfg, family, prog, script), obs.key(), ninj > 0 or nt_prog, f"{wrapper}:{obs.kind()}", steps=len(script))
-        for rule, shape in _invariants(wrapper, cfg, obs):
+        for rule, shape in _invariants(wrapper, cfg, obs, script):
             inj = "+".join(a[1] for a in script if a[0] == "throw") or "none"
             t.violation(
                 rule,
@@ -434,5 +512,5 @@ def replay(payload):
         return []
     return [
         {"rule": r, "signature": f"{r}|{wrapper}|{shape}", "detail": f"trace={[(m['cmd'], m['obj'], m['kwargs']) for m in _decode(obs)]} end={obs.steps[-1]!r}\n{G.pretty(prog)}"}
-        for r, shape in _invariants(wrapper, cfg, obs)
+        for r, shape in _invariants(wrapper, cfg, obs, script)
     ]
